@@ -27,16 +27,19 @@ def run(pid, tier, replay=None):
         tlc_must_pass(res, "%sMC IterOK N=%d" % (mod, N))
         ck.add_tlc(res, "design_%s" % kind)
         ck.part("design_%s" % kind, N=N, invariant="IterInv (6 orders = reference; next/prev inverse; tear: once each, children first, no read after hand-out, remainder linked, ends empty) on every reachable tree")
-        r = vlib.run_harness([exe, "iter", out, sc.path("it-" + kind), "14", str(N)], timeout=3000)
-        summ = parse_summary(r)
-        if r.returncode != 0 or summ is None:
-            handle_crash(ck, r, "iterate-%s" % kind)
-        if summ:
-            tot_shapes += summ["edges"]
-            ck.cov["evaluations"] += summ["edges"]
-            ck.cov["distinct_nontrivial"] += summ["nontrivial"]
-            ck.part("iterate_%s" % kind, shapes=summ["edges"], shapes_with_3plus_nodes=summ["nontrivial"])
-        files_all += glob.glob(sc.path("it-%s-*.ndjson" % kind))
+        # both node layouts: tag packed into the parent pointer, and separate parent / tag fields (small-pointer targets)
+        exe_s = vlib.cc_build(sc.path("tree_split_" + kind), [os.path.join(vlib.HARNESS, "tree_h.c")] + vlib.repo_src(src), sc, defs=tuple(defs) + ("SPLIT_LAYOUT", "A_SIZE_POINTER=1"))
+        for lay, ex in (("packed", exe), ("split", exe_s)):
+            r = vlib.run_harness([ex, "iter", out, sc.path("it-%s-%s" % (kind, lay)), "7", str(N)], timeout=3000)
+            summ = parse_summary(r)
+            if r.returncode != 0 or summ is None:
+                handle_crash(ck, r, "iterate-%s%s" % (kind, "" if lay == "packed" else "-split-layout"))
+            if summ:
+                tot_shapes += summ["edges"]
+                ck.cov["evaluations"] += summ["edges"]
+                ck.cov["distinct_nontrivial"] += summ["nontrivial"]
+                ck.part("iterate_%s_%s" % (kind, lay), shapes=summ["edges"], shapes_with_3plus_nodes=summ["nontrivial"])
+            files_all += glob.glob(sc.path("it-%s-%s-*.ndjson" % (kind, lay)))
     files = vlib.drop_partial_lines(sorted(files_all))
     spec = os.path.join(specdir, "TreeIterTrace.tla"); cfgt = os.path.join(specdir, "TreeIterTrace.cfg")
     nev, bad = vlib.validate_collect(spec, cfgt, files, sc)
